@@ -147,15 +147,23 @@ def analyse(ck, u, an, f0, cls, which):
     ck.ob('correction-form', key, f.where(), not msgs, '; '.join(msgs[:3]))
 
 
-def gs_kernel(f):
-    """the row update fragments of a Gauss-Seidel sweep: [X = rhs[i], inner if, x[i] = inverse(D) * X], normalised"""
+INT_T = ('int', 'long', 'unsigned int', 'unsigned long', 'short', 'long long', 'unsigned long long', 'char', 'bool')
+
+
+def gs_kernel(f, an=None):
+    """the row update of a Gauss-Seidel sweep as a skeleton of arithmetic statements over ROLES, so that index walks, pointer walks and
+    row iterators compare equal:  leaves are  X[row] / X[col] (solution vector at the row index / at a column), F[row] (right-hand side),
+    A (a value of the matrix row), I (an integer), literals, and the accumulator locals numbered in order of appearance.
+    Returns (json skeleton, number of statements) or None."""
+    if an is None:
+        an = Analyzer([f.unit])
+    u = f.unit
     final = None
     for n in f.nodes.values():
         if n['k'] == 'bin' and n['op'] == '=' and unwrap(n['x'])['k'] == 'idx' and any(c['k'] == 'call' and c.get('f') == 'amgcl::math::inverse' for c in walk(n['y'])):
             final = n
     if final is None:
         return None
-    # enclosing block
     blk = None
     for anc in f.ancestors(final):
         if anc['k'] == 'block':
@@ -163,47 +171,99 @@ def gs_kernel(f):
             break
     if blk is None:
         return None
-    frags = []
-    for s in blk['s']:
-        if s['k'] == 'bin' and s['op'] == '=' and s is not final:
-            frags.append(s)
-        elif s['k'] in ('for', 'while', 'rfor'):
-            for y in walk(s['b']):
-                if y['k'] == 'if':
-                    frags.append(y)
-                    break
-        elif s['k'] == 'decl':
-            for v in s['v']:
-                if v.get('init') is not None and v['n'] in ('D', 'X'):
-                    frags.append(v['init'])
-    frags.append(final)
-    pmap = {}
+    xroot = an.root_of_expr(f, unwrap(final['x'])['b'])
+    rowidx = show(unwrap(final['x'])['x'])
+    accs = {}
 
-    def norm(n):
-        if n is None:
+    def tyname(e):
+        if 'ty' in e:
+            return u.type(e['ty'])
+        if e['k'] == 'ref':
+            return u.type(f.decl(e['d']).get('ct'))
+        if e['k'] == 'call' and 'rt' in e:
+            return u.type(e['rt'])
+        return ''
+
+    def is_int(e):
+        t = tyname(e).replace('const ', '').replace('&', '').strip()
+        return t in INT_T
+
+    def leaf(e):
+        e0 = unwrap(e)
+        if e0 is None:
+            return 'null'
+        k = e0['k']
+        if k == 'lit':
+            return 'lit:' + str(e0.get('v'))
+        if k == 'ref' and f.decl(e0['d']).get('k') == 'local' and not f.decl(e0['d']).get('ptr') and not f.decl(e0['d']).get('ref') and not is_int(e0):
+            # value-typed local: an accumulator (X, D) or a copy of a matrix value (v = val[j])
+            init = None
+            nmod = 0
+            for n in f.nodes.values():
+                if n['k'] == 'decl':
+                    for v in n['v']:
+                        if v['d'] == e0['d']:
+                            init = v.get('init')
+                if n['k'] == 'bin' and n['op'] in ('=', '+=', '-=', '*=', '/=') and unwrap(n['x'])['k'] == 'ref' and unwrap(n['x'])['d'] == e0['d']:
+                    nmod += 1
+            if nmod == 0 and init is not None and leaf(init) in ('A',):
+                return 'A'
+            if e0['d'] not in accs:
+                accs[e0['d']] = 'acc%d' % len(accs)
+            return accs[e0['d']]
+        if is_int(e0):
+            return 'I'
+        # element of a vector / value of the row
+        r = an.root_of_expr(f, e0)
+        if r is not None and r == xroot and k in ('idx', 'un', 'call'):
+            ix = unwrap(e0['x']) if k == 'idx' else None
+            return 'X[row]' if ix is not None and show(ix) == rowidx else 'X[col]'
+        if r is not None and r[0] == 'param' and r != xroot and k == 'idx':
+            return 'F[row]' if show(unwrap(e0['x'])) == rowidx else 'F[?]'
+        if k in ('idx', 'un', 'mem') or (k == 'call' and (e0.get('m') in ('value', 'col') or e0.get('op') in ('*', '[]'))) or k == 'ref':
+            return 'A'
+        return None
+
+    def sk(e):
+        e0 = unwrap(e)
+        if e0 is None:
             return None
-        if isinstance(n, list):
-            return [norm(y) for y in n]
-        if not isinstance(n, dict):
-            return n
-        out = {}
-        k = n.get('k')
-        # element access through per-thread storage col[tid][j] / val[tid][j] == a.col() / a.value(): abstract both to a role
-        for kk, v in n.items():
-            if kk in ('i', 'l', 'lf', 'fd', 'mr', 'cm', 't', 'ct'):
-                continue
-            if kk == 'd' and isinstance(v, int):
-                if v not in pmap:
-                    pmap[v] = 'v%d' % len(pmap)
-                out[kk] = pmap[v]
-                continue
-            if kk == 'n' and k == 'ref':
-                continue
-            if kk == 'f' and k == 'idx':
-                continue   # element access: which container type provides operator[] is irrelevant
-            out[kk] = norm(v)
-        return out
-    return json.dumps([norm(x_) for x_ in frags], sort_keys=True), len(frags)
+        l = leaf(e0)
+        if l is not None and not (e0['k'] == 'bin' or (e0['k'] == 'call' and (e0.get('f') or '').startswith('amgcl::math::')) or (e0['k'] == 'un' and e0['op'] == '-')):
+            return l
+        if e0['k'] == 'bin':
+            return [e0['op'], sk(e0['x']), sk(e0['y'])]
+        if e0['k'] == 'un' and e0['op'] in ('-', '!'):
+            return [e0['op'], sk(e0['e'])]
+        if e0['k'] == 'call' and (e0.get('f') or '').startswith('amgcl::math::'):
+            return [e0['f'].split('::')[-1]] + [sk(a) for a in e0.get('a', [])]
+        return l if l is not None else '?' + e0['k']
+    stmts = []
+
+    def visit(n, guards):
+        if n['k'] == 'block':
+            for s_ in n['s']:
+                visit(s_, guards)
+        elif n['k'] == 'decl':
+            for v in n['v']:
+                if v.get('init') is not None and not is_int({'k': 'ref', 'd': v['d']}) and not f.decl(v['d']).get('ptr') and not f.decl(v['d']).get('ref'):
+                    l = leaf({'k': 'ref', 'd': v['d'], 'i': -1})
+                    if l.startswith('acc'):
+                        stmts.append(['=', l, sk(v['init']), guards])
+        elif n['k'] == 'bin' and n['op'] in ('=', '+=', '-=', '*=', '/='):
+            lhs = sk(n['x'])
+            if isinstance(lhs, str) and (lhs.startswith('acc') or lhs.startswith('X[')):
+                stmts.append([n['op'], lhs, sk(n['y']), guards])
+        elif n['k'] == 'if':
+            c = sk(n['c'])
+            if n.get('t') is not None:
+                visit(n['t'], guards + [['if', c]])
+            if n.get('e') is not None:
+                visit(n['e'], guards + [['else', c]])
+        elif n['k'] in ('for', 'while', 'rfor', 'do'):
+            visit(n['b'], guards + [['loop']])
+    visit(blk, [])
+    return json.dumps(stmts, sort_keys=True), len(stmts)
 
 
 def rule_gs(ck, units):
